@@ -176,58 +176,111 @@ func (s *hbStream) end() {
 
 // ---------------------------------------------------------------- etcd fake
 
-// fakeKV is an in-memory etcd v2 KeysAPI: Get, Create (fails when the key
-// exists), Set with optional PrevValue (compare-and-swap). Linearizable.
+// fakeKV is an in-memory, linearizable etcd v2 KeysAPI for plain keys with the
+// conditions of the v2 store: Set dispatches like the server's PUT handler
+//   PrevExist=false                      -> create: fails with NodeExist (105) when the key exists
+//   PrevExist=true, no PrevValue/Index   -> update: fails with KeyNotFound (100) when it does not
+//   PrevValue and/or PrevIndex (with PrevExist true or unset) -> compare-and-swap: KeyNotFound (100)
+//                                           when absent, TestFailed (101) unless every given condition holds
+//   none                                 -> unconditional set
+// Create = Set{PrevExist:false}, Update = Set{PrevExist:true}. TTL / Dir / Refresh are not
+// modelled (the code under test does not use them; using them panics rather than misbehaving).
+//
+// afterGet is a one-shot hook that runs right after a Get has returned its
+// answer (outside the lock), i.e. between a client's read and its following
+// write: the harness uses it to let another master's whole refill fall there.
 type fakeKV struct {
 	client.KeysAPI
-	mu    sync.Mutex
-	data  map[string]string
-	index uint64
-	cas   int // failed compare-and-swaps (for the evidence)
+	mu       sync.Mutex
+	data     map[string]string
+	mod      map[string]uint64
+	created  map[string]uint64
+	index    uint64
+	cas      int // failed compare-and-swaps (for the evidence)
+	afterGet func()
 }
 
-func newFakeKV() *fakeKV { return &fakeKV{data: map[string]string{}} }
+func newFakeKV() *fakeKV {
+	return &fakeKV{data: map[string]string{}, mod: map[string]uint64{}, created: map[string]uint64{}}
+}
+
+func (f *fakeKV) node(key string) *client.Node {
+	return &client.Node{Key: key, Value: f.data[key], CreatedIndex: f.created[key], ModifiedIndex: f.mod[key]}
+}
 
 func (f *fakeKV) Get(ctx context.Context, key string, opts *client.GetOptions) (*client.Response, error) {
-	defer runtime.Gosched() // a read-modify-write client gets a chance to lose the race
+	defer func() {
+		f.mu.Lock()
+		h := f.afterGet
+		f.afterGet = nil
+		f.mu.Unlock()
+		if h != nil {
+			h()
+		}
+		runtime.Gosched() // a read-modify-write client gets a chance to lose the race
+	}()
 	f.mu.Lock()
 	defer f.mu.Unlock()
-	v, ok := f.data[key]
-	if !ok {
+	if _, ok := f.data[key]; !ok {
 		return nil, client.Error{Code: client.ErrorCodeKeyNotFound, Message: "Key not found", Cause: key, Index: f.index}
 	}
-	return &client.Response{Action: "get", Node: &client.Node{Key: key, Value: v, ModifiedIndex: f.index}, Index: f.index}, nil
+	return &client.Response{Action: "get", Node: f.node(key), Index: f.index}, nil
 }
 
 func (f *fakeKV) Create(ctx context.Context, key, value string) (*client.Response, error) {
-	f.mu.Lock()
-	defer f.mu.Unlock()
-	if _, ok := f.data[key]; ok {
-		return nil, client.Error{Code: client.ErrorCodeNodeExist, Message: "Key already exists", Cause: key, Index: f.index}
-	}
-	f.index++
-	f.data[key] = value
-	return &client.Response{Action: "create", Node: &client.Node{Key: key, Value: value, CreatedIndex: f.index, ModifiedIndex: f.index}, Index: f.index}, nil
+	return f.Set(ctx, key, value, &client.SetOptions{PrevExist: client.PrevNoExist})
+}
+
+func (f *fakeKV) Update(ctx context.Context, key, value string) (*client.Response, error) {
+	return f.Set(ctx, key, value, &client.SetOptions{PrevExist: client.PrevExist})
 }
 
 func (f *fakeKV) Set(ctx context.Context, key, value string, opts *client.SetOptions) (*client.Response, error) {
 	f.mu.Lock()
 	defer f.mu.Unlock()
-	cur, ok := f.data[key]
-	if opts != nil && opts.PrevValue != "" {
-		if !ok {
+	var o client.SetOptions
+	if opts != nil {
+		o = *opts
+	}
+	if o.TTL != 0 || o.Dir || o.Refresh {
+		panic("fakeKV: TTL / Dir / Refresh are not modelled")
+	}
+	cur, exists := f.data[key]
+	action := "set"
+	switch {
+	case o.PrevExist == client.PrevNoExist:
+		action = "create"
+		if exists {
+			return nil, client.Error{Code: client.ErrorCodeNodeExist, Message: "Key already exists", Cause: key, Index: f.index}
+		}
+	case o.PrevValue != "" || o.PrevIndex != 0:
+		action = "compareAndSwap"
+		if !exists {
 			return nil, client.Error{Code: client.ErrorCodeKeyNotFound, Message: "Key not found", Cause: key, Index: f.index}
 		}
-		if cur != opts.PrevValue {
+		if !((o.PrevValue == "" || cur == o.PrevValue) && (o.PrevIndex == 0 || f.mod[key] == o.PrevIndex)) {
 			f.cas++
-			return nil, client.Error{Code: client.ErrorCodeTestFailed, Message: "Compare failed", Cause: "[" + opts.PrevValue + " != " + cur + "]", Index: f.index}
+			return nil, client.Error{Code: client.ErrorCodeTestFailed, Message: "Compare failed", Cause: "[" + o.PrevValue + " != " + cur + "]", Index: f.index}
 		}
+	case o.PrevExist == client.PrevExist:
+		action = "update"
+		if !exists {
+			return nil, client.Error{Code: client.ErrorCodeKeyNotFound, Message: "Key not found", Cause: key, Index: f.index}
+		}
+	}
+	var prev *client.Node
+	if exists {
+		prev = f.node(key)
 	}
 	f.index++
 	f.data[key] = value
-	resp := &client.Response{Action: "set", Node: &client.Node{Key: key, Value: value, ModifiedIndex: f.index}, Index: f.index}
-	if ok {
-		resp.PrevNode = &client.Node{Key: key, Value: cur}
+	f.mod[key] = f.index
+	if !exists {
+		f.created[key] = f.index
+	}
+	resp := &client.Response{Action: action, Node: f.node(key), PrevNode: prev, Index: f.index}
+	if o.NoValueOnSuccess {
+		resp.Node, resp.PrevNode = nil, nil
 	}
 	return resp, nil
 }
